@@ -84,7 +84,7 @@ def tlc(module, cfg, env=None, workers=1, timeout=1800, metadir=None, extra="", 
     shutil.rmtree(md, ignore_errors=True)
     os.makedirs(md, exist_ok=True)
     gc = "-XX:ParallelGCThreads=2" if str(workers) in ("1", "2") else ""
-    cmd = "java -XX:+UseParallelGC " + gc + " %s -cp /opt/veriftools/tla/tla2tools.jar:/opt/veriftools/tla/CommunityModules-deps.jar tlc2.TLC -workers %s -metadir %s -config %s %s %s" % (
+    cmd = "java -XX:+UseParallelGC -Djava.io.tmpdir=" + md + " " + gc + " %s -cp /opt/veriftools/tla/tla2tools.jar:/opt/veriftools/tla/CommunityModules-deps.jar tlc2.TLC -workers %s -metadir %s -config %s %s %s" % (
         java_opts, workers, md, cfg, extra, module)
     try:
         rc, out = sh(cmd, timeout=timeout, env=env, cwd=cwd)
